@@ -375,7 +375,7 @@ type planEntry struct {
 }
 
 func emit(r *vh.Run, backend, stream, ident string, nodes []string, plan []planEntry, d0 []dkey, m0 []marker,
-	calls []call, probes []probe, intra [][]probe, torn [][][]int, left []marker, extra map[string]any) {
+	calls []call, probes []probe, intra [][]probe, torn [][][]int, left []marker, returned bool, extra map[string]any) {
 	b := "Etcd"
 	if backend == "redis" {
 		b = "Redis"
@@ -437,8 +437,15 @@ func emit(r *vh.Run, backend, stream, ident string, nodes []string, plan []planE
 		tt[i] = vh.List(rows)
 	}
 	r.Count(fmt.Sprintf("straddling_readers>0=%v", nTorn > 0))
-	term := fmt.Sprintf("(mkCase %s %s %s %s %s %s %s %s %s %s %s)", b, vh.Str(ident), vh.StrList(nodes), vh.List(pl),
-		initTerm(d0, m0), vh.List(ct), vh.List(res), vh.List(pt), vh.List(it), vh.List(tt), vh.Bool(markersLeft))
+	term := fmt.Sprintf("(mkCase %s %s %s %s %s %s %s %s %s %s %s %s)", b, vh.Str(ident), vh.StrList(nodes), vh.List(pl),
+		initTerm(d0, m0), vh.List(ct), vh.List(res), vh.List(pt), vh.List(it), vh.List(tt), vh.Bool(markersLeft), vh.Bool(returned))
+	zero := false
+	for _, e := range plan {
+		if e.Count == 0 {
+			zero = true
+		}
+	}
+	r.Count(fmt.Sprintf("%s:plan_with_zero_count_node=%v", stream, zero))
 	injected, removes, adds := 0, 0, 0
 	for _, c := range calls {
 		if c.Inj {
@@ -523,7 +530,7 @@ func storeStream(t *testing.T) {
 			perm := rng.Perm(len(nodes))
 			plan := []planEntry{}
 			for _, i := range perm[:1+rng.Intn(len(nodes))] {
-				plan = append(plan, planEntry{Node: nodes[i], Count: 1 + rng.Intn(3)})
+				plan = append(plan, planEntry{Node: nodes[i], Count: rng.Intn(4)}) // 0: a node selected by FILL that is already filled
 			}
 			d0, m0 := pr.deployed(), pr.markers()
 			calls := []call{}
@@ -641,7 +648,7 @@ func storeStream(t *testing.T) {
 				}
 				do(call{Kind: "CDelProc", Node: plan[pi].Node, Inj: rng.Intn(15) == 0})
 			}
-			emit(r, backend, "store", ident, nodes, plan, d0, m0, calls, probes, intra, torn, pr.markers(), nil)
+			emit(r, backend, "store", ident, nodes, plan, d0, m0, calls, probes, intra, torn, pr.markers(), cut == -1, nil)
 			done++
 			// remove what this deployment left so that the next one starts clean of its ident
 			for _, m := range pr.markers() {
@@ -754,7 +761,14 @@ func deployStream(t *testing.T) {
 			ps.on, ps.calls, ps.probes, ps.intra, ps.ident, ps.seen = true, nil, []probe{pr.take()}, nil, "", map[string]int{}
 			ps.injKind, ps.injOrd = "", 0
 			fault := "none"
-			switch rng.Intn(9) {
+			// the first two deployments of every world: FILL 1 instance on one node, then FILL 1 instance on two
+			// nodes: the node filled before is selected again with 0 instances to deploy (a zero-count plan entry)
+			fillCorpus := dep < 2
+			faultKind := rng.Intn(9)
+			if fillCorpus {
+				faultKind = 8
+			}
+			switch faultKind {
 			case 0:
 				ps.injKind, ps.injOrd, fault = "CAdd", rng.Intn(3), "AddWorkload"
 			case 1:
@@ -783,6 +797,14 @@ func deployStream(t *testing.T) {
 			}
 			if strategy == "EACH" {
 				opts.Count = 1 + rng.Intn(2)
+			}
+			if strategy == "FILL" {
+				opts.Count = 1 + rng.Intn(3)
+				opts.NodesLimit = rng.Intn(4) // 0 = every node
+			}
+			if fillCorpus {
+				strategy = "FILL"
+				opts.DeployStrategy, opts.Count, opts.NodesLimit = "FILL", 1, dep+1
 			}
 			ch, err := w.C.CreateWorkload(w.Ctx, opts)
 			msgs, failed := 0, 0
@@ -829,8 +851,8 @@ func deployStream(t *testing.T) {
 			if ident == "" {
 				ident = "none"
 			}
-			emit(r, backend, "deploy", ident, nodes, plan, d0, m0, calls, probes, intra, nil, pr.markers(),
-				map[string]any{"fault": fault, "strategy": strategy, "count": opts.Count, "messages": msgs, "failed_messages": failed})
+			emit(r, backend, "deploy", ident, nodes, plan, d0, m0, calls, probes, intra, nil, pr.markers(), true,
+				map[string]any{"fault": fault, "strategy": strategy, "count": opts.Count, "nodes_limit": opts.NodesLimit, "messages": msgs, "failed_messages": failed, "fill_corpus": fillCorpus})
 			r.Count("fault=" + fault)
 			done++
 			for _, m := range pr.markers() {
